@@ -19,7 +19,7 @@ N(s) == s
 RuleNames == <<(<<115,101,108>>), (<<102,105,108,116,101,114>>), (<<115,101,108,95,97>>), (<<95,120>>)>>      \* sel filter sel_a _x
 \* family 1: sel 1x ax And notable        family 2: the same with _x instead of ax
 FilterNames == <<(<<115,101,108>>), (<<49,120>>), (IF fam = 1 THEN <<97,120>> ELSE <<95,120>>), (<<65,110,100>>), (<<110,111,116,97,98,108,101>>)>>
-Prefix == <<95,102,105,108,116,95,97,98>>     \* _filt_ab
+Prefix == <<95,102,105,108,116,95,97,98,97,98,97,98,97,98,97,98>>     \* _filt_ababababab
 RuleConds == {CId(RuleNames[1]), CSel("1", <<115,101,108,42>>), CSel("all", S_them), CSel("any", <<42>>),
               CBin("cand", CId(RuleNames[1]), CNot(CId(RuleNames[2]))), CSel("1", <<42,95,97>>), CSel("1", <<95,42>>)}
 FilterConds == {CId(FilterNames[1]), CNot(CId(FilterNames[1])), CSel("1", S_them), CSel("all", <<115,101,42>>),
